@@ -7,9 +7,10 @@ pub mod kitty;
 pub mod queue;
 pub mod render;
 pub mod sgr;
+pub mod sixel;
 pub mod text;
 pub mod tty;
 
 pub fn all() -> Vec<World> {
-    vec![base64::world(), queue::world(), decode::world(), tty::world(), render::world(), sgr::world(), kitty::world(), text::world()]
+    vec![base64::world(), queue::world(), decode::world(), tty::world(), render::world(), sgr::world(), kitty::world(), text::world(), sixel::world()]
 }
